@@ -32,7 +32,7 @@ theorem respMacroAccepts_inv (d : RespDesc) (h : d.macroAccepts = true) :
   unfold RespDesc.macroAccepts at h
   simp only [Bool.and_eq_true, decide_eq_true_eq, Bool.not_eq_true', Bool.and_eq_false_imp,
     Bool.not_eq_false', List.isEmpty_iff] at h
-  exact h
+  exact ⟨h.1.1.1, h.1.1.2⟩
 
 theorem tryIntoResp_ok_inv (J : JsonCodec) (d : RespDesc) (v : RespVal) (r : HttpResponse)
     (henc : tryIntoHttpResponse J d v = .ok r) :
